@@ -28,7 +28,8 @@ namespace OP2Utility::Stream
 			iosOpenMode |= std::ios_base::trunc;
 		}
 		if ((openMode & OpenMode::Append) != 0) {
-			iosOpenMode |= std::ios_base::ate;
+			// Note: out without app (or in) truncates the file, even when combined with ate
+			iosOpenMode |= std::ios_base::app | std::ios_base::ate;
 		}
 		return iosOpenMode;
 	}
